@@ -69,7 +69,12 @@ def do_replay(prop, path):
     env.setup(getattr(mod, "VARIANT", "plain"))
     with open(path) as f:
         rec = json.load(f)
-    fails = mod.replay(rec["case"])
+    try:
+        fails = mod.replay(rec["case"])
+    except Exception as e:  # the implementation raised where the module expects a value
+        import traceback
+
+        fails = [{"key": f"exception:{type(e).__name__}", "what": traceback.format_exc()[-1500:]}]
     same = [x for x in fails if x["key"] == rec["key"]]
     for x in fails:
         print(f"replay: {x['key']}: {x['what']}")
